@@ -28,7 +28,9 @@ Inputs == IF Kinds \cap {"tree", "treem"} # {} THEN {s \in Strs(MaxLen) : BalFro
 
 (* "E" stands for a two-byte character (the harness maps it to U+00E9),   *)
 (* "W" for a four-byte one                                                *)
-Width(kind, t) == IF kind = "str" THEN (CASE t = "E" -> 2 [] t = "W" -> 4 [] t = "X" -> 2 [] t \in {"L", "P"} -> 3 [] OTHER -> 1) ELSE 1
+(* "G" = e + combining acute (3 bytes), "U" = a flag of two regional indicators (8 bytes): one grapheme cluster each *)
+Width(kind, t) == IF kind \in {"str", "graph"}
+                  THEN (CASE t = "E" -> 2 [] t = "W" -> 4 [] t = "X" -> 2 [] t \in {"L", "P", "G"} -> 3 [] t = "U" -> (IF kind = "graph" THEN 8 ELSE 3) [] OTHER -> 1) ELSE 1
 RECURSIVE OffsFrom(_, _, _)
 OffsFrom(kind, s, o) == IF s = <<>> THEN <<o>> ELSE <<o>> \o OffsFrom(kind, Tail(s), o + Width(kind, Head(s)))
 Offs(kind, s) == OffsFrom(kind, s, 0)
